@@ -351,16 +351,59 @@ CMPOPS = {ast.Eq: "==", ast.NotEq: "!=", ast.Lt: "<", ast.LtE: "<=", ast.Gt: ">"
           ast.Is: "is", ast.IsNot: "is not", ast.In: "in", ast.NotIn: "not in"}
 
 
+_INV = {"==": "!=", "!=": "==", "<": ">=", ">=": "<", ">": "<=", "<=": ">", "is": "is not", "is not": "is",
+        "in": "not in", "not in": "in"}
+_MIRROR = {"==": "==", "!=": "!=", "<": ">", ">": "<", "<=": ">=", ">=": "<=", "is": "is", "is not": "is not"}
+
+
+def cmp_term(op, a, b):
+    """Canonical comparison: a constant operand goes to the right; for symmetric operators the operands
+    are ordered, so `1 <= x` is `x >= 1` and `a == b` is `b == a`."""
+    if op in _MIRROR:
+        a_const = isinstance(a, tuple) and a and a[0] == "const"
+        b_const = isinstance(b, tuple) and b and b[0] == "const"
+        if a_const and not b_const:
+            op, a, b = _MIRROR[op], b, a
+        elif op in ("==", "!=", "is", "is not") and not a_const and not b_const and repr(b) < repr(a):
+            a, b = b, a
+    return ("cmp", op, a, b)
+
+
 def negate(c):
-    if isinstance(c, tuple) and c and c[0] == "not":
-        return c[1]
+    """Logical negation; comparisons are negated by inverting their operator (so `not (a != b)` is
+    `a == b`), double negations cancel."""
+    if isinstance(c, tuple) and c:
+        if c[0] == "not":
+            return c[1]
+        if c[0] == "cmp" and c[1] in _INV:
+            return ("cmp", _INV[c[1]], c[2], c[3])
     return ("not", c)
 
 
+_NEG_OPS = {"!=": "==", "is not": "is", "not in": "in"}
+
+
 def gate(cond, a, b):
+    """Value after a branch; the condition is kept in positive polarity (`x is not None ? a : b` is
+    `x is None ? b : a`), so both spellings of one selection are one term."""
     if a == b:
         return a
+    if isinstance(cond, tuple) and cond:
+        if cond[0] == "not":
+            return gate(cond[1], b, a)
+        if cond[0] == "cmp" and cond[1] in _NEG_OPS:
+            return ("gate", ("cmp", _NEG_OPS[cond[1]], cond[2], cond[3]), b, a)
     return ("gate", cond, a, b)
+
+
+def tget(v, i):
+    """Element i of a tuple-valued term, simplified through tuple displays and gates."""
+    if isinstance(v, tuple) and v:
+        if v[0] == "tuple" and isinstance(i, int) and 0 <= i < len(v[1]):
+            return v[1][i]
+        if v[0] == "gate":
+            return gate(v[1], tget(v[2], i), tget(v[3], i))
+    return ("tget", v, i)
 
 
 def assume(term, facts):
@@ -373,7 +416,7 @@ def assume(term, facts):
             return assume(term[2], facts)
         if negate(c) in facts:
             return assume(term[3], facts)
-        return ("gate", c, assume(term[2], facts), assume(term[3], facts))
+        return gate(c, assume(term[2], facts), assume(term[3], facts))
     if term[0] in ("const", "param", "field0", "global", "str", "mu", "eta", "elem", "undef"):
         return term
     return tuple(assume(x, facts) if isinstance(x, tuple) else x for x in term)
@@ -764,7 +807,7 @@ class Summariser:
                     self.assign(el, v, events, st)
             else:
                 for i, el in enumerate(target.elts):
-                    self.assign(el, ("tget", val, i), events, st)
+                    self.assign(el, tget(val, i), events, st)
         elif isinstance(target, ast.Attribute):
             events.append(AttrStore(self.expr(target.value, events), target.attr, val, st.lineno))
         else:
@@ -858,7 +901,7 @@ class Summariser:
             self.env[target.id] = val
         elif isinstance(target, (ast.Tuple, ast.List)):
             for i, el in enumerate(target.elts):
-                self.bind_target(el, ("tget", val, i))
+                self.bind_target(el, tget(val, i))
         else:
             raise Unsupported(f"loop target {ast.unparse(target)}")
 
@@ -991,14 +1034,17 @@ class Summariser:
             parts = []
             for op, right in zip(e.ops, e.comparators):
                 r = self._expr(right, events)
-                parts.append(("cmp", CMPOPS[type(op)], left, r))
+                parts.append(cmp_term(CMPOPS[type(op)], left, r))
                 left = r
             return parts[0] if len(parts) == 1 else ("and", tuple(parts))
         if isinstance(e, ast.IfExp):
             c = self._expr(e.test, events)
             return gate(c, self._expr(e.body, events), self._expr(e.orelse, events))
         if isinstance(e, ast.Subscript):
-            return ("sub", self._expr(e.value, events), self._expr(e.slice, events))
+            base, idx = self._expr(e.value, events), self._expr(e.slice, events)
+            if base[0] == "tuple" and idx[0] == "const" and isinstance(idx[1], int) and 0 <= idx[1] < len(base[1]):
+                return base[1][idx[1]]
+            return ("sub", base, idx)
         if isinstance(e, ast.Slice):
             return ("slice", self._expr(e.lower, events), self._expr(e.upper, events), self._expr(e.step, events))
         if isinstance(e, (ast.Tuple, ast.List, ast.Set)):
@@ -1018,7 +1064,21 @@ class Summariser:
         if isinstance(e, (ast.ListComp, ast.SetComp, ast.DictComp, ast.GeneratorExp)):
             return self.comp(e, events)
         if isinstance(e, ast.JoinedStr):
-            return ("str", ast.unparse(e))
+            parts = []
+            for v in e.values:
+                if isinstance(v, ast.Constant):
+                    parts.append(("const", v.value))
+                elif isinstance(v, ast.FormattedValue):
+                    if v.format_spec is not None:
+                        return ("str", ast.unparse(e))
+                    inner = self._expr(v.value, events)
+                    parts.append(("fn", {115: "str", 114: "repr", 97: "ascii"}.get(v.conversion, "str"), (inner,)))
+            if len(parts) > 6:
+                return ("str", ast.unparse(e))      # long messages stay opaque
+            out = None
+            for p_ in parts:
+                out = p_ if out is None else ("op", "+", out, p_)
+            return out if out is not None else ("const", "")
         if isinstance(e, ast.Call):
             return self.call(e, events)
         if isinstance(e, ast.Starred):
@@ -1105,7 +1165,10 @@ class Summariser:
         d = self.prog.dotted_of(self.module, f) if isinstance(f, (ast.Attribute, ast.Name)) else None
         if isinstance(f, ast.Name):
             if f.id in self.env:
-                recv = self.env[f.id]
+                recv = assume(self.env[f.id], self.facts) if self.facts else self.env[f.id]
+                bound = self._bound_method_call(recv, args, dict(kwargs), events, e)
+                if bound is not None:
+                    return bound
                 res = ("res", self.site(e), "local:" + f.id, args, kwargs)
                 events.append(Call("local:" + f.id, None, recv, args, kwargs, res, line))
                 return res
@@ -1113,6 +1176,8 @@ class Summariser:
             if r and r[0] == "func":
                 m, node = r[1]
                 q = f"{m.name}.{node.name}"
+                if self._can_inline_function(m, node):
+                    return self.inline_function(m, node, q, args, dict(kwargs), events, e)
                 res = ("res", self.site(e), q, args, kwargs)
                 events.append(Call(q, None, None, args, kwargs, res, line))
                 return res
@@ -1125,6 +1190,10 @@ class Summariser:
             elif r is None and f.id in FRESH_BUILTINS:
                 return ("new", self.site(e), f.id, args + tuple(("kw",) + kv for kv in kwargs))
             elif r is None and f.id in PURE_BUILTINS:
+                if f.id == "len" and args == (("self",),) and self.cls is not None:
+                    c, m = self.prog.find_method(self.cls, "__len__")
+                    if m is not None:
+                        return self.inline(c, m, (), {}, events, e)
                 return ("fn", f.id, args + tuple(("kw",) + kv for kv in kwargs))
             elif r is None and f.id in EXC_NAMES:
                 return ("new", self.site(e), "exc:" + f.id, args)
@@ -1151,12 +1220,32 @@ class Summariser:
             if r[0] == "func":
                 m, node = r[1]
                 q = f"{m.name}.{node.name}"
+                if self._can_inline_function(m, node):
+                    return self.inline_function(m, node, q, args, dict(kwargs), events, e)
                 res = ("res", self.site(e), q, args, kwargs)
                 events.append(Call(q, None, None, args, kwargs, res, line))
                 return res
             res = ("res", self.site(e), d, args, kwargs)
             events.append(Call(d, None, None, args, kwargs, res, line))
             return res
+        # ClassName.method(...) on a package class: static / class-level helper
+        if isinstance(f, ast.Attribute) and isinstance(f.value, ast.Name) and f.value.id not in self.env:
+            rc = self.prog.resolve_name(self.module, f.value.id)
+            if rc and rc[0] == "class":
+                c, m = self.prog.find_method(rc[1], f.attr)
+                if m is not None and any(ast.unparse(d) == "staticmethod" for d in m.decorator_list):
+                    saved = self.cls
+                    try:
+                        if self.cls is None or rc[1] not in self.prog.mro(self.cls):
+                            self.cls = rc[1]
+                        return self.inline(c, m, args, dict(kwargs), events, e)
+                    finally:
+                        self.cls = saved
+        # dict.fromkeys(keys, value): a dict comprehension with a constant value
+        if isinstance(f, ast.Attribute) and f.attr == "fromkeys" and isinstance(f.value, ast.Name) and \
+                f.value.id == "dict" and "dict" not in self.env and 1 <= len(args) <= 2 and not kwargs:
+            lid = self.ids.next()
+            return ("comp", "dict", lid, args[0], ("elem", lid), args[1] if len(args) == 2 else ("const", None), ())
         # method on a local object / arbitrary expression
         if isinstance(f, ast.Attribute):
             recv = self._expr(f.value, events)
@@ -1174,6 +1263,43 @@ class Summariser:
         events.append(Call("expr", None, recv, args, kwargs, res, line))
         return res
 
+    def _bound_method_call(self, recv, args, kwargs, events, node):
+        """Call of a local holding `self.method` (or a conditional choice between such): inline it."""
+        if self.cls is None:
+            return None
+
+        def method_of(t):
+            if t[0] == "global":
+                for c in self.prog.mro(self.cls):
+                    if t[1].startswith(c.qual + "."):
+                        name = t[1][len(c.qual) + 1:]
+                        if name in c.methods:
+                            return self.prog.find_method(self.cls, name)
+            return None
+        if recv[0] == "gate":
+            a, b = method_of(recv[2]), method_of(recv[3])
+            if a is None or b is None or a[1] is None or b[1] is None:
+                return None
+            cond = recv[1]
+            env0, f0 = dict(self.env), dict(self.fields)
+            ev_t, ev_e = [], []
+            self.facts.append(cond)
+            rt = self.inline(a[0], a[1], args, kwargs, ev_t, node)
+            self.facts.pop()
+            env_t, f_t = self.env, self.fields
+            self.env, self.fields = dict(env0), dict(f0)
+            self.facts.append(negate(cond))
+            re_ = self.inline(b[0], b[1], args, kwargs, ev_e, node)
+            self.facts.pop()
+            events.append(If(cond, ev_t, ev_e, node.lineno))
+            self.env = self.merge(cond, env_t, self.env)
+            self.fields = self.merge(cond, f_t, self.fields, field=True)
+            return gate(cond, rt, re_)
+        m = method_of(recv)
+        if m is not None and m[1] is not None:
+            return self.inline(m[0], m[1], args, kwargs, events, node)
+        return None
+
     def _is_property(self, name):
         if self.cls is None:
             return False
@@ -1186,6 +1312,26 @@ class Summariser:
                 return c
         return self.cls
 
+    @staticmethod
+    def _expand_star(args, n_params):
+        """Positional arguments with *tuple expanded (unknown iterables are indexed positionally)."""
+        out = []
+        for x in args:
+            if isinstance(x, tuple) and x and x[0] == "star":
+                v = x[1]
+                if v[0] == "tuple":
+                    out.extend(v[1])
+                elif v[0] == "new" and v[2] in ("list",) and all(not (isinstance(i, tuple) and i and i[0] == "star") for i in v[3]):
+                    out.extend(v[3])
+                else:
+                    k = 0
+                    while len(out) < n_params:
+                        out.append(tget(v, k))
+                        k += 1
+            else:
+                out.append(x)
+        return out
+
     def inline(self, c, m, args, kwargs, events, node):
         if self.depth >= self.MAX_DEPTH:
             raise Unsupported(f"inlining bound reached at {self.module.path}:{node.lineno} {ast.unparse(node)[:60]}")
@@ -1197,7 +1343,7 @@ class Summariser:
         if "staticmethod" not in decos:
             names = names[1:]
         params = {}
-        pos = [x for x in args if not (isinstance(x, tuple) and x and x[0] == "star")]
+        pos = self._expand_star(args, len(names))
         for n, v in zip(names, pos):
             params[n] = v
         if len(pos) > len(names) and a.vararg:
@@ -1231,6 +1377,49 @@ class Summariser:
         self.fields = sub.exit_fields(term)
         rv = ret if ret is not None else ("const", None)
         events.append(Inlined(f"{c.name}.{m.name}", ev, node.lineno, c, m, dict(params), rv))
+        return rv
+
+    NO_INLINE = ("validate_model_function", "validate_loss_function", "_get_loss_function_from_river_metric")
+
+    def _can_inline_function(self, m, node):
+        """Package-level helper functions are inlined unless recursive, generators, or one of the
+        validators (kept as named calls: roles are inferred from them)."""
+        if node.name in self.NO_INLINE or node in self.fnstack or self.depth >= self.MAX_DEPTH:
+            return False
+        for n in ast.walk(node):
+            if isinstance(n, (ast.Yield, ast.YieldFrom)):
+                return False
+            if isinstance(n, ast.Call) and isinstance(n.func, ast.Name) and n.func.id == node.name:
+                return False        # directly recursive
+        return True
+
+    def inline_function(self, m, node, q, args, kwargs, events, call_node):
+        """Inline a module-level package function (no self)."""
+        a = node.args
+        names = [x.arg for x in a.posonlyargs + a.args]
+        params = {}
+        pos = self._expand_star(args, len(names))
+        for n, v in zip(names, pos):
+            params[n] = v
+        kwnames = set(names) | {x.arg for x in a.kwonlyargs}
+        for n, v in kwargs.items():
+            if n in kwnames:
+                params[n] = v
+        for n, dflt in zip(names[len(names) - len(a.defaults):], a.defaults):
+            if n not in params:
+                params[n] = self._expr_const(dflt)
+        for kw, dflt in zip(a.kwonlyargs, a.kw_defaults):
+            if kw.arg not in params and dflt is not None:
+                params[kw.arg] = self._expr_const(dflt)
+        sub = Summariser(self.prog, m, None, node, params=params, fields=self.fields, depth=self.depth + 1,
+                         ids=self.ids, stack=self.stack + (f"{call_node.lineno}:{call_node.col_offset}",),
+                         loops=self.loops, owner=None, fnstack=self.fnstack)
+        sub.facts = list(self.facts)
+        sub.base_facts = len(sub.facts)
+        ev, term, ret = sub.block(node.body)
+        self.fields = sub.exit_fields(term)
+        rv = ret if ret is not None else ("const", None)
+        events.append(Inlined(q, ev, call_node.lineno, None, node, dict(params), rv))
         return rv
 
     def _expr_const(self, e):
